@@ -21,6 +21,11 @@ def gen_module(rng, nfun, late_ty):
     out.append("pub type Shape {\n  Circle(r: Int)\n  Rect(w: Int, h: Int)\n}\n\n")
     out.append("pub fn early() {\n  late()\n}\n\n")
     out.append("pub fn early2(x: Int) {\n  let y = late()\n  #(x, y)\n}\n\n")
+    # unusual but valid shapes in the file the readers work on: deep nesting of calls, blocks, lists and tuples
+    out.append("pub fn ident(x) {\n  x\n}\n\n")
+    out.append("pub fn deep_calls(a: Int) {\n  " + "ident(" * 64 + "a" + ")" * 64 + "\n}\n\n")
+    out.append("pub fn deep_blocks(a: Int) {\n  " + "{ " * 56 + "a + 1" + " }" * 56 + "\n}\n\n")
+    out.append("pub fn deep_data(a: Int) {\n  #(" + "[" * 30 + "#(" * 25 + "a" + ")" * 25 + "]" * 30 + ", late())\n}\n\n")
     for i in range(nfun):
         k = rng.randrange(4)
         if k == 0:
